@@ -124,6 +124,10 @@ def r1_3(ctx, fx):
 R14_EXC = {
     ("H79_widening_assign", "select_CH78_constraints"): ("y", "for NNC y the code first computes yy.intersection_assign(x) on the const_cast alias of y, which always ends with constraints pending or generators out of date, and then yy.is_empty(), which in both cases runs the full minimization: y is minimized with nothing pending (closed y: y.minimize()); the summary of intersection_assign is a disjunction the state cannot hold"),
     ("H79_widening_assign", "select_H79_constraints"): ("y", "as for select_CH78_constraints: y has been minimized on both branches"),
+    ("BHRZ03_widening_assign", "select_H79_constraints"): ("this", "x.minimize() is called for its effect only: y was tested non-empty (`!y.minimize()` returns) and the widening's precondition y <= x makes x non-empty, so the minimization cannot find x empty and leaves it minimized with nothing pending"),
+    ("BHRZ03_widening_assign", "BHRZ03_combining_constraints"): ("this", "as for select_H79_constraints (x minimized, non-empty by y <= x)"),
+    ("BHRZ03_widening_assign", "BHRZ03_evolving_points"): ("this", "as for select_H79_constraints"),
+    ("BHRZ03_widening_assign", "BHRZ03_evolving_rays"): ("this", "as for select_H79_constraints"),
     ("H79_widening_assign", "reads", "y.con_sys"): "y has been minimized on both branches (see the select_CH78_constraints entry)",
     ("update_sat_c", "reads", "con_sys"): "asserts both descriptions minimized and reads only the non-pending prefix (bounded by first_pending_row()) of each: the saturation matrix relates exactly those rows",
     ("update_sat_c", "reads", "gen_sys"): "as above",
